@@ -51,8 +51,11 @@ renders its small input file(s) in a scratch directory of the history and runs t
   The rows of all such calls of a history are drawn from one small pool, so the SAME protein sets are looked up again
   after the collection changed and was re-indexed, on the other collection, and while the index is stale.
 After every call the state of EVERY collection is compared with the model, and the oracle judges every
-lookup against a linear scan of the groups of the collection it was asked of and flags any change of any
-collection by a reader.
+lookup against a linear scan of the groups of the collection it was asked of.  Readers and lookup callers: a change of
+the GROUPS of any collection is a failing input; a change of flag / index only when it leaves the flag up over an index
+that is not the index of the current groups (a defensive re-index keeps the property: correspondence side only).  Rows of a
+lookup caller: a row that IS mapped must be mapped to a current group / position holding a protein of the row; which rows
+a caller drops, writes although shared, or attaches is the caller's policy (model + correspondence, never the oracle).
 Cases in the old single-collection format `{"init","from_list","ops"}` (corpus) are still accepted.
 
 The model implements the REPAIRED `get_protein_groups` (the −1 marker of an unknown protein is dropped
@@ -94,6 +97,21 @@ def _state(pg):
         "valid": bool(pg.valid_idx),
         "index": sorted([k, v] for k, v in pg.protein_to_group_idx_map.items()),
     }
+
+
+def _index_unsound(groups, index):
+    """None when `index` (sorted [protein, position] pairs) is an index of `groups`: its keys are exactly the proteins of
+    the groups and every key points to a position whose group holds it (which of two positions of a repeated protein is
+    the indexer's choice); otherwise what is wrong"""
+    members = {p for g in groups for p in g}
+    keys = set()
+    for p, i in index:
+        keys.add(p)
+        if not (isinstance(i, int) and 0 <= i < len(groups)) or p not in groups[i]:
+            return "%r -> %r, but that position %s" % (p, i, "does not exist" if not (isinstance(i, int) and 0 <= i < len(groups)) else "holds %r" % (groups[i],))
+    if keys != members:
+        return "proteins %r are in a group but not in the index" % (sorted(members - keys),)
+    return None
 
 
 def _pos_groups(pg, res):
@@ -456,8 +474,129 @@ _PKG_MODULES = [
     "picked_group_fdr.parsers.fragpipe", "picked_group_fdr.parsers.sage", "picked_group_fdr.parsers.maxquant",
     "picked_group_fdr.parsers.psm", "picked_group_fdr.pipeline.update_fragpipe_results",
 ]
-_PRISTINE = {}  # (id(owner), name, slot) -> (object, copy of its pristine contents) / ("none",) for a name bound to None
-_SCANNED = {}   # module name -> (signature, entries): the scan of a module is repeated only when names were added
+_SNAP = {}         # module name -> {"sig", "names", "entries"}: the IMPORT-TIME state of a package module
+_PKG_SEEN = {}     # {"n": len(sys.modules) when last scanned, "mods": the package's modules found then}
+_IMPORTED = []     # non-empty once every submodule of the package has been imported (or has failed to import)
+_HISTORY_RAN = []  # non-empty once a history ran in this process: a module first seen after that may be tainted
+RESET_NOTES = []   # what `fresh_process` could not record / put back (never an exception out of run_impl)
+_IMMUTABLE = (type(None), bool, int, float, complex, str, bytes, frozenset, range, type(Ellipsis))
+
+
+def _note(msg):
+    if len(RESET_NOTES) < 50 and msg not in RESET_NOTES:
+        RESET_NOTES.append(msg)
+
+
+def _is_pkg(mname):
+    return mname == "picked_group_fdr" or mname.startswith("picked_group_fdr.")
+
+
+def _import_package():
+    """import every submodule of the package ONCE, before any history runs, so that the state recorded for a module is its
+    import-time state (a module that cannot be imported - absent optional dependency - is skipped)"""
+    import importlib
+    import pkgutil
+    import sys
+    import warnings
+
+    _IMPORTED.append(True)
+    with warnings.catch_warnings():
+        warnings.simplefilter("ignore")
+        names = list(_PKG_MODULES)
+        try:
+            import picked_group_fdr
+
+            for mi in pkgutil.walk_packages(picked_group_fdr.__path__, "picked_group_fdr.", onerror=lambda n: None):
+                if mi.name.rsplit(".", 1)[-1] not in ("__main__", "setup") and mi.name not in names:
+                    names.append(mi.name)
+        except BaseException as e:  # noqa: BLE001 - the reset never raises
+            _note("walk_packages: %s" % type(e).__name__)
+        for m in names:
+            if m in sys.modules:
+                continue
+            try:
+                importlib.import_module(m)
+            except BaseException as e:  # noqa: BLE001
+                if m in _PKG_MODULES:
+                    _note("import %s: %s" % (m, type(e).__name__))
+
+
+def _is_state(val):
+    """a value that is STATE of a module / class: not a module, class, function, method, descriptor or other callable
+    (memoising wrappers are handled on their own)"""
+    import types
+
+    if isinstance(val, (types.ModuleType, type, staticmethod, classmethod, property)):
+        return False
+    if callable(val) or hasattr(type(val), "__get__"):
+        return False
+    return True
+
+
+def _restorable(val):
+    """objects whose CONTENTS `_put_back` can put back in place"""
+    import collections
+
+    if isinstance(val, (dict, set, list, bytearray, collections.deque)):
+        return True
+    if type(val).__module__ == "numpy" and hasattr(val, "shape"):
+        return True
+    return _is_pkg(getattr(type(val), "__module__", "") or "") and isinstance(getattr(val, "__dict__", None), dict)
+
+
+def _snapshot(val):
+    """(kind, copy): "ref" = put the very object back under its name, nothing else (immutable values, objects that cannot
+    be copied or whose contents cannot be put back in place); "deep" = additionally put its contents back from a copy"""
+    import copy
+
+    if isinstance(val, _IMMUTABLE) or not _restorable(val):
+        return ("ref", None)
+    try:
+        return ("deep", copy.deepcopy(val))
+    except BaseException:  # noqa: BLE001
+        return ("ref", None)
+
+
+def _record_module(mname, mod):
+    """the import-time state of a package module: EVERY module-level name and every class-level name (classes defined in
+    the module) bound to a state value - containers, scalars and None alike -, every container among the defaults and
+    attributes of its functions, every memoising wrapper (`functools.lru_cache`)"""
+    import enum
+    import inspect
+    import types
+
+    ctypes = _container_types()
+    classes = [v for v in list(vars(mod).values())
+               if inspect.isclass(v) and getattr(v, "__module__", None) == mname and not issubclass(v, enum.Enum)]
+    functions, entries, fn_names = [], [], {}  # entries: (owner, name, slot, kind, object, copy)
+    names = {}                   # id(owner) -> (owner, names bound when the module was first seen)
+    for owner in [mod] + classes:
+        names[id(owner)] = (owner, set(vars(owner)))
+        for name, val in list(vars(owner).items()):
+            if name.startswith("__") and name.endswith("__"):
+                continue
+            if callable(getattr(val, "cache_clear", None)):
+                entries.append((owner, name, "", "cache", val, None))
+                continue
+            if _is_state(val):
+                kind, snap = _snapshot(val)
+                entries.append((owner, name, "", kind, val, snap))
+                continue
+            fn = val.__func__ if isinstance(val, (staticmethod, classmethod)) else val
+            if isinstance(fn, types.FunctionType) and getattr(fn, "__module__", None) == mname:
+                functions.append(fn)
+                slots = [("default%d" % i, dv) for i, dv in enumerate(fn.__defaults__ or ())]
+                slots += [("kwdefault:" + kn, dv) for kn, dv in (fn.__kwdefaults__ or {}).items()]
+                slots += [("attr:" + an, av) for an, av in list(vars(fn).items())]
+                for slot, dv in slots:
+                    if callable(getattr(dv, "cache_clear", None)):
+                        entries.append((fn, name, slot, "cache", dv, None))
+                    elif type(dv) in ctypes or (slot.startswith("attr:") and _is_state(dv)):
+                        kind, snap = _snapshot(dv)
+                        entries.append((fn, name, slot, kind, dv, snap))
+                fn_names[id(fn)] = set(vars(fn))
+    sig = (len(vars(mod)), [len(vars(c)) for c in classes], [len(vars(f)) for f in functions])
+    return {"sig": sig, "classes": classes, "functions": functions, "names": names, "fn_names": fn_names, "entries": entries}
 
 
 def _container_types():
@@ -466,120 +605,135 @@ def _container_types():
     return (dict, list, set, collections.OrderedDict, collections.defaultdict, collections.deque, collections.Counter)
 
 
-def _scan_module(mname, mod):
-    """every module-level, class-level and function-level (mutable default / function attribute) container of a package
-    module, every memoising wrapper (`functools.lru_cache`) and every module- or class-level name bound to None (a
-    lazily created cache); returns (classes, functions, entries)"""
-    import inspect
-    import types
+def _same(a, b, depth=0):
+    """structural equality of plain containers of plain scalars that cannot raise: no `==` on anything but scalars of
+    the same type; whatever it does not know (arrays, frames, objects) counts as "changed" and is simply put back"""
+    import collections
 
-    ctypes = _container_types()
-    classes = [v for v in list(vars(mod).values()) if inspect.isclass(v) and getattr(v, "__module__", None) == mname]
-    functions, entries = [], []
-
-    def consider(owner, name, slot, val):
-        if callable(getattr(val, "cache_clear", None)) or type(val) in ctypes or (val is None and slot == ""):
-            entries.append((owner, name, slot))
-
-    for owner in [mod] + classes:
-        for name, val in list(vars(owner).items()):
-            if name.startswith("__") and name.endswith("__"):
-                continue
-            consider(owner, name, "", val)
-            fn = val.__func__ if isinstance(val, (staticmethod, classmethod)) else val
-            if isinstance(fn, types.FunctionType) and getattr(fn, "__module__", None) == mname:
-                functions.append(fn)
-                for i, dv in enumerate(fn.__defaults__ or ()):
-                    consider(fn, name, "default%d" % i, dv)
-                for kn, dv in (fn.__kwdefaults__ or {}).items():
-                    consider(fn, name, "kwdefault:" + kn, dv)
-                for an, av in list(vars(fn).items()):
-                    consider(fn, name, "attr:" + an, av)
-    return classes, functions, entries
+    try:
+        if a is b:
+            return True
+        if type(a) is not type(b) or depth > 8:
+            return False
+        if isinstance(a, (bool, int, float, complex, str, bytes)):
+            return bool(a == b)
+        if isinstance(a, (list, tuple, collections.deque)):
+            return len(a) == len(b) and all(_same(x, y, depth + 1) for x, y in zip(a, b))
+        if isinstance(a, dict):
+            ka, kb = list(a), list(b)
+            return len(ka) == len(kb) and all(_same(x, y, depth + 1) and _same(a[x], b[y], depth + 1) for x, y in zip(ka, kb))
+        if isinstance(a, (set, frozenset)):
+            return all(isinstance(x, (bool, int, float, str, bytes)) for x in a | b) and a == b
+        return False
+    except BaseException:  # noqa: BLE001
+        return False
 
 
-def _slot_value(owner, name, slot):
+def _put_back(owner, name, slot, kind, obj, snap):
+    """put ONE recorded value back: the name is bound to the recorded object again and (kind "deep") the object gets its
+    recorded contents again, in place, unless `_same` shows they are unchanged (no `==` on arrays / frames: what `_same`
+    does not know is always put back)"""
+    import collections
+    import copy
+
+    if kind == "cache":
+        obj.cache_clear()
+        if slot == "" and vars(owner).get(name) is not obj:
+            setattr(owner, name, obj)
+        return
     if slot == "":
-        return vars(owner).get(name)
-    if slot.startswith("default"):
-        d = owner.__defaults__ or ()
-        i = int(slot[7:])
-        return d[i] if i < len(d) else None
-    if slot.startswith("kwdefault:"):
-        return (owner.__kwdefaults__ or {}).get(slot[10:])
-    return vars(owner).get(slot[5:])
+        if vars(owner).get(name, _put_back) is not obj:
+            setattr(owner, name, obj)
+    elif slot.startswith("default"):
+        d, i = owner.__defaults__ or (), int(slot[7:])
+        if i < len(d) and d[i] is not obj:
+            owner.__defaults__ = d[:i] + (obj,) + d[i + 1:]
+    elif slot.startswith("kwdefault:"):
+        if (owner.__kwdefaults__ or {}).get(slot[10:]) is not obj:
+            owner.__kwdefaults__ = dict(owner.__kwdefaults__ or {}, **{slot[10:]: obj})
+    elif vars(owner).get(slot[5:], _put_back) is not obj:
+        setattr(owner, slot[5:], obj)
+    if kind != "deep" or _same(obj, snap):
+        return
+    content = copy.deepcopy(snap)
+    if isinstance(obj, dict):  # defaultdict / OrderedDict / Counter keep their own settings
+        obj.clear()
+        obj.update(content)
+    elif isinstance(obj, set):
+        obj.clear()
+        obj.update(content)
+    elif isinstance(obj, collections.deque):
+        obj.clear()
+        obj.extend(content)
+    elif isinstance(obj, (list, bytearray)):
+        obj[:] = content
+    elif type(obj).__module__ == "numpy" and hasattr(obj, "shape") and getattr(content, "shape", None) == obj.shape:
+        obj[...] = content
+    elif _is_pkg(getattr(type(obj), "__module__", "") or "") and isinstance(getattr(obj, "__dict__", None), dict):
+        obj.__dict__.clear()  # an instance of a class of the package kept at module / class level
+        obj.__dict__.update(vars(content))
 
 
 def fresh_process():
-    """A history stands for ONE process lifetime: state the package keeps outside the objects of the history (module-level
-    or class-level containers, names bound to None that are filled lazily, mutable default arguments, function attributes,
-    lru_cache wrappers) must not leak from one case into the next, or a failing history would not replay on its own.  All
-    modules the harness calls are imported first; the contents of every such container are recorded when it is first seen
-    and put back (in place) at the start of every later case."""
-    import collections
-    import copy
-    import importlib
+    """A history stands for ONE process lifetime: state the package keeps outside the objects of the history must not leak
+    from one case into the next, or a failing history would not replay on its own.  The state put back is the IMPORT-TIME
+    state of the package, WHOLE: every submodule is imported before the first history runs; the first time a module is seen
+    every module-level and class-level name bound to a value that is not a module / class / function (containers, SCALARS
+    and None alike), every container among function defaults / function attributes and every `lru_cache` wrapper is
+    recorded; at the start of every case ALL of them are put back together (names re-bound to the recorded objects, the
+    contents of containers restored in place from a copy, memoising wrappers cleared, module / class level names that did
+    not exist at import time deleted) - never a part of them, so the package is in the state of a process that has just
+    imported it, which a real process reaches.  Contents are compared only by `_same` (plain containers of plain scalars;
+    `==` on arrays raises) and nothing here raises: what
+    cannot be recorded or put back is listed in RESET_NOTES (handed on under `_rec`)."""
     import sys
+    import types
 
-    for m in _PKG_MODULES:
-        if m not in sys.modules:
-            importlib.import_module(m)
-    ctypes = _container_types()
-    for mname, mod in list(sys.modules.items()):
-        if mod is None or not (mname == "picked_group_fdr" or mname.startswith("picked_group_fdr.")):
-            continue
-        known = _SCANNED.get(mname)
-        if known is not None:
-            (nmod, cls_sizes, fn_sizes), (classes, functions, entries) = known
-            if nmod != len(vars(mod)) or any(len(vars(c)) != k for c, k in zip(classes, cls_sizes)) or any(
-                    len(vars(f)) != k for f, k in zip(functions, fn_sizes)):
-                known = None
-        if known is None:
-            classes, functions, entries = _scan_module(mname, mod)
-            _SCANNED[mname] = ((len(vars(mod)), [len(vars(c)) for c in classes], [len(vars(f)) for f in functions]),
-                               (classes, functions, entries))
-        for owner, name, slot in entries:
-            val = _slot_value(owner, name, slot)
-            key = (id(owner), name, slot)
-            rec = _PRISTINE.get(key)
-            if rec is None:  # first sight: this is the pristine state
-                if val is None:
-                    _PRISTINE[key] = ("none",)
-                elif callable(getattr(val, "cache_clear", None)):
-                    _PRISTINE[key] = ("cache",)
-                    val.cache_clear()
-                else:
-                    try:
-                        snap = copy.deepcopy(val)
-                    except Exception:
-                        snap = copy.copy(val)
-                    _PRISTINE[key] = (val, snap)
-                continue
-            if rec[0] == "none":
-                if val is not None:
-                    setattr(owner, name, None)
-                continue
-            if rec[0] == "cache":
-                if callable(getattr(val, "cache_clear", None)):
-                    val.cache_clear()
-                continue
-            obj, snap = rec
-            if val is not obj and slot == "":
-                setattr(owner, name, obj)  # the name was rebound to another container: bind the recorded object again
-            if obj == snap:
-                continue
+    try:
+        if not _IMPORTED:
+            _import_package()
+        if _PKG_SEEN.get("n") != len(sys.modules):  # the scan of sys.modules is repeated only when modules were imported
+            _PKG_SEEN["n"] = len(sys.modules)
+            _PKG_SEEN["mods"] = [(m, mod) for m, mod in list(sys.modules.items()) if mod is not None and _is_pkg(m)]
+        for mname, mod in _PKG_SEEN["mods"]:
             try:
-                content = copy.deepcopy(snap)
-            except Exception:
-                content = copy.copy(snap)
-            if isinstance(obj, (dict, set)):
-                obj.clear()
-                obj.update(content)
-            elif isinstance(obj, collections.deque):
-                obj.clear()
-                obj.extend(content)
-            else:
-                obj[:] = content
+                rec = _SNAP.get(mname)
+                if rec is None:
+                    if _HISTORY_RAN:
+                        _note("module %s first seen after a history ran: its recorded state may not be its import-time state" % mname)
+                    _SNAP[mname] = _record_module(mname, mod)
+                    continue
+                for owner, name, slot, kind, obj, snap in rec["entries"]:
+                    try:
+                        _put_back(owner, name, slot, kind, obj, snap)
+                    except BaseException as e:  # noqa: BLE001
+                        _note("not reset: %s.%s%s (%s)" % (getattr(owner, "__name__", owner), name, slot and ":" + slot, type(e).__name__))
+                sig = (len(vars(mod)), [len(vars(c)) for c in rec["classes"]], [len(vars(f)) for f in rec["functions"]])
+                if sig != rec["sig"]:  # names were added since import: state created lazily (`global _X`) goes away again
+                    for owner, had in rec["names"].values():
+                        for name, val in list(vars(owner).items()):
+                            if name in had or (name.startswith("__") and name.endswith("__")):
+                                continue
+                            if isinstance(val, types.ModuleType) or not (_is_state(val) or callable(getattr(val, "cache_clear", None))):
+                                continue
+                            try:
+                                delattr(owner, name)
+                            except BaseException as e:  # noqa: BLE001
+                                _note("not removed: %s.%s (%s)" % (getattr(owner, "__name__", owner), name, type(e).__name__))
+                    for fn in rec["functions"]:  # function attributes created after import
+                        known = rec["fn_names"].get(id(fn), ())
+                        for an in list(vars(fn)):
+                            if an not in known and not (an.startswith("__") and an.endswith("__")):
+                                try:
+                                    delattr(fn, an)
+                                except BaseException:  # noqa: BLE001
+                                    _note("not removed: %s.%s" % (fn.__name__, an))
+            except BaseException as e:  # noqa: BLE001
+                _note("module %s: %s" % (mname, type(e).__name__))
+    except BaseException as e:  # noqa: BLE001
+        _note("fresh_process: %s" % type(e).__name__)
+    if not _HISTORY_RAN:
+        _HISTORY_RAN.append(True)
 
 
 def apply_op(pg, op):
@@ -905,7 +1059,10 @@ class P(Prop):
                 import shutil
 
                 shutil.rmtree(scratch[0], ignore_errors=True)
-        return {"steps": steps, "_rec": {"before": befores, "init_states": init_states}}
+        rec = {"before": befores, "init_states": init_states}
+        if RESET_NOTES:
+            rec["reset_notes"] = list(RESET_NOTES)
+        return {"steps": steps, "_rec": rec}
 
     # ---------------------------------------------------------------- model
     def model_request(self, case, impl_out):
@@ -962,17 +1119,33 @@ class P(Prop):
             unique = all(len(v) == 1 for v in where.values())
             tag = "step %d %r: " % (n, top)
             failed = isinstance(out, dict) and "err" in out
-            if k in ROWCALLERS:
-                # a lookup caller must leave EVERY live collection exactly as it was, and what it does with each row must
-                # follow from the groups that CURRENTLY hold the row's proteins in the collection it was handed
+            if k in ROWCALLERS or k in READERS:
+                # The property allows a lookup to "fail loudly OR return the true group": a caller / reader that re-indexes the
+                # collection it was handed (`if not pg.valid_idx: pg.create_index()`) keeps the property.  So: a change of the
+                # GROUPS of any live collection is a failing input; a change of flag / index only when it leaves a collection
+                # whose flag is up although its index is not an index of its current groups (that state answers wrongly
+                # without failing).  Every other change of flag / index is left to the correspondence (the model's step is a
+                # no-op, the state comparison disagrees).
+                who = "lookup caller" if k in ROWCALLERS else "reader"
                 prev = impl_out["steps"][n - 1]["states"] if n > 0 else impl_out["_rec"].get("init_states")
                 if prev is not None:
                     for d, before in enumerate(prev):
                         after = st["states"][d]
-                        if after != before:
-                            what = "groups" if after["groups"] != before["groups"] else "valid" if after["valid"] != before["valid"] else "index"
-                            return tag + "the lookup caller changed the %s of collection %d: %r before, %r after" % (
-                                what, d, before[what], after[what])
+                        if after["groups"] != before["groups"]:
+                            return tag + "the %s changed the groups of collection %d: %r before, %r after" % (
+                                who, d, before["groups"], after["groups"])
+                        if after["valid"] != before["valid"] or after["index"] != before["index"]:
+                            bad = _index_unsound(after["groups"], after["index"]) if after["valid"] else None
+                            if bad:
+                                return tag + "the %s left collection %d with the flag up (flag %r, index %r before) although its index %r is not the index of its current groups %r: %s" % (
+                                    who, d, before["valid"], before["index"], after["index"], after["groups"], bad)
+                            if after["valid"]:
+                                fresh[d] = True  # rebuilt by the caller: later calls need not fail
+            if k in ROWCALLERS:
+                # What the caller does with a row is its POLICY (which rows it drops, whether a shared row is written, what it
+                # does with the -1 marker): the model states it, the correspondence compares it.  The property itself: a row
+                # that IS mapped is mapped to a CURRENT group / position that holds a protein of the row (so a row whose
+                # proteins are in no current group is never mapped), whether or not the index was stale when it was asked.
                 rows = effective_rows(op)
                 if failed:
                     e = out["err"]
@@ -987,60 +1160,28 @@ class P(Prop):
                     return tag + "answer %r does not have one entry per row" % (out,)
                 for t, (r, a) in enumerate(zip(rows, out["rows"])):
                     rtag = tag + "row %d %r: " % (t, r)
-                    present = [p for p in r if p in where]
-                    absent = [p for p in r if p not in where]
-                    hit = sorted({i for p in present for i in where[p]})
+                    hit = sorted({i for p in r if p in where for i in where[p]})
                     kind = a if isinstance(a, str) else a[0]
-                    if kind in ("written_many", "attached_many"):
-                        return rtag + "the row was written / attached more than once: %r" % (a,)
-                    if kind == "written":
-                        lead = a[1]
-                        if lead not in r:
-                            return rtag + "written with the leading protein %r, which is not a protein of the row" % lead
-                        if not any(groups[i] and groups[i][0] == lead for i in hit):
-                            return rtag + "written with the leading protein %r, but the current group(s) of its proteins are %r" % (
-                                lead, [groups[i] for i in hit])
-                        if unique and len(hit) > 1:
-                            return rtag + "written although its proteins are in %d current groups %r (shared)" % (
-                                len(hit), [groups[i] for i in hit])
-                    elif kind == "attached":
-                        i = a[1]
-                        if not (0 <= i < len(groups)):
-                            return rtag + "attached to position %r outside the collection" % i
-                        if i not in hit:
-                            return rtag + "attached to position %d (%r), which holds none of its proteins" % (i, groups[i])
-                        if absent:
-                            return rtag + "attached to position %d although %r is in no group" % (i, absent)
-                        if unique and hit != [i]:
-                            return rtag + "attached to position %d although its proteins are in the groups at %r" % (i, hit)
-                    elif kind == "leader":
-                        if not any(groups[i] and groups[i][0] == a[1] for i in hit):
-                            return rtag + "annotated with %r, but the current group(s) of its proteins are %r" % (
-                                a[1], [groups[i] for i in hit])
-                    elif kind == "dropped":
-                        if not unique or not r:
-                            continue
-                        if k == "psm_update":
-                            if len(hit) == 1 and groups[hit[0]][0] in r:
-                                return rtag + "dropped although its proteins are in the one current group %r whose leader is a protein of the row" % (
-                                    groups[hit[0]],)
-                        elif not absent and len(hit) == 1:
-                            return rtag + "attached nowhere although all its proteins are in the one current group %r at position %d" % (
-                                groups[hit[0]], hit[0])
+                    if kind == "dropped":
+                        continue  # never judged: dropping a row is the caller's policy
+                    if kind in ("written", "written_many", "leader"):
+                        for lead in ([a[1]] if kind != "written_many" else list(a[1])):
+                            if kind != "leader" and lead not in r:
+                                return rtag + "written with the leading protein %r, which is not a protein of the row" % lead
+                            if not any(groups[i] and groups[i][0] == lead for i in hit):
+                                return rtag + "%s the leading protein %r, but the current group(s) of its proteins are %r" % (
+                                    "annotated with" if kind == "leader" else "written with", lead, [groups[i] for i in hit])
+                    elif kind in ("attached", "attached_many"):
+                        for i in ([a[1]] if kind == "attached" else list(a[1])):
+                            if not (isinstance(i, int) and 0 <= i < len(groups)):
+                                return rtag + "attached to position %r outside the collection" % (i,)
+                            if i not in hit:
+                                return rtag + "attached to position %d (%r), which holds none of its proteins" % (i, groups[i])
                     else:
                         return rtag + "unknown answer %r" % (a,)
                 continue
             if k in READERS:
-                # a reader must leave EVERY live collection exactly as it was (groups, flag, index); it may fail only
-                # loudly with 'index is invalid', only when it uses the index, only while the index is stale
-                prev = impl_out["steps"][n - 1]["states"] if n > 0 else impl_out["_rec"].get("init_states")
-                if prev is not None:
-                    for d, before in enumerate(prev):
-                        after = st["states"][d]
-                        if after != before:
-                            what = "groups" if after["groups"] != before["groups"] else "valid" if after["valid"] != before["valid"] else "index"
-                            return tag + "the reader changed the %s of collection %d: %r before, %r after" % (
-                                what, d, before[what], after[what])
+                # a reader may fail only loudly with 'index is invalid', only when it uses the index, only while the index is stale
                 if failed:
                     if out["err"] != "invalid_index" or k not in READERS_USING_INDEX:
                         return tag + "the reader raised %s" % out["err"]
